@@ -433,12 +433,23 @@ theorem rankWith_step {M U : Nat} {st st' : St} {l : Label} (H : Inv st)
         rw [broadcastBg_eq]; simp [hw1]
       · simp only [id, hw1, true_and]; omega
     have hr1 : rankWith M U st1 + (if fd = true then M else 0) + (if er = true then M else 0) = rankWith M U st := by
-      rw [← hst1]; simp only [rankWith, WS, RS, hE]
-      cases fd with
+      rw [← hst1]
+      cases er with
       | true =>
-        have := hfd rfl
-        cases er <;> simp [immrank, errrank, this] <;> omega
-      | false => cases er <;> simp [immrank, errrank] <;> omega
+        have hE' := hE rfl
+        simp only [rankWith, WS, RS, hE']
+        cases fd with
+        | true =>
+          have := hfd rfl
+          simp [immrank, errrank, this] <;> omega
+        | false => simp [immrank, errrank] <;> omega
+      | false =>
+        simp only [rankWith, WS, RS]
+        cases fd with
+        | true =>
+          have := hfd rfl
+          simp [immrank, this] <;> omega
+        | false => simp
     refine ⟨hbc.1, fun hsp => ?_, fun hsp => ?_⟩
     · have : fd = false ∧ er = false := by cases fd <;> cases er <;> simp [isSpin] at hsp ⊢
       obtain ⟨h1, h2⟩ := this
